@@ -34,68 +34,93 @@ Section P.
 Variable p : params.
 Notation mstep := (step (trip_of p) (reset_of p) (backoff_of p) (p_hom p)).
 
-Lemma mon_step_accepts m b e :
+(* the completion of a call in flight, with whatever hooks [tl] follow it *)
+Lemma mon_finish_k_accepts m b i ok g0 tl :
+  Sim m b -> Inv (p_hom p) b -> nth_error (inflight b) i = Some g0 ->
+  exists m', mon_finish_k p m i ok (vis (o_hooks (snd (mstep b (Finish i ok)))) ++ tl) = Some (m', tl) /\
+             Sim m' (fst (mstep b (Finish i ok))).
+Proof.
+  intros [S1 S2 S3 S4 S5 S6 S7] [Hc Hle Ho Hh Hs Hn] En.
+  destruct m as [ms me mi msu mfa md mn]. destruct b as [s g [c su fa] ex nw infl].
+  msimp. subst ms me mi msu md mn.
+  unfold mon_finish_k, mon_clock. unf. msimp. rewrite En. msimp.
+  pose proof (remove_nth_length infl i g0 En) as Hlen.
+  assert (Hc1 : c - 1 = Z.of_nat (length (remove_nth i infl))) by lia.
+  destruct s; msimp.
+  + (* closed *)
+    destruct (Nat.eqb g0 g) eqn:Eg; msimp.
+    2:{ eexists; split; [reflexivity|]. constructor; msimp; auto. }
+    destruct ok; msimp.
+    * eexists; split; [reflexivity|]. constructor; msimp; auto.
+    * rewrite <- Hc1, (S5 eq_refl).
+      destruct (trip_of p {| cur := c - 1; succ := 0; fail := fa + 1 |}) eqn:Et; msimp.
+      -- rewrite Z.eqb_refl. eexists; split; [reflexivity|]. constructor; msimp; auto; discriminate.
+      -- eexists; split; [reflexivity|]. constructor; msimp; auto.
+  + (* half-open *)
+    destruct (Nat.eqb g0 g) eqn:Eg; msimp.
+    2:{ eexists; split; [reflexivity|]. constructor; msimp; auto; discriminate. }
+    destruct ok; msimp.
+    * rewrite <- Hc1.
+      destruct (reset_of p {| cur := c - 1; succ := su + 1; fail := 0 |}) eqn:Er; msimp.
+      -- eexists; split; [reflexivity|]. constructor; msimp; auto.
+      -- eexists; split; [reflexivity|]. constructor; msimp; auto; discriminate.
+    * rewrite Z.eqb_refl. eexists; split; [reflexivity|]. constructor; msimp; auto; discriminate.
+  + (* open: every call in flight is older than the current generation *)
+    pose proof (nth_error_Forall _ _ _ _ (Ho eq_refl) En) as Hg0. cbn beta in Hg0.
+    destruct (ex <? nw) eqn:E; msimp.
+    * assert (Eg : Nat.eqb g0 (S g) = false) by (apply Nat.eqb_neq; lia).
+      rewrite ?Eg. msimp. rewrite ?Eg. msimp.
+      eexists; split; [reflexivity|]. constructor; msimp; auto; discriminate.
+    * assert (Eg : Nat.eqb g0 g = false) by (apply Nat.eqb_neq; lia).
+      rewrite ?Eg. msimp. rewrite ?Eg. msimp.
+      eexists; split; [reflexivity|]. constructor; msimp; auto.
+Qed.
+
+(* a start, with its verdict and hooks *)
+Lemma mon_start_accepts m b :
   Sim m b -> Inv (p_hom p) b ->
-  exists m', mon_step p m e (snd (mstep b e)) = Some m' /\ Sim m' (fst (mstep b e)).
+  exists m', mon_start p m (snd (mstep b Start)) = Some m' /\ Sim m' (fst (mstep b Start)).
 Proof.
   intros [S1 S2 S3 S4 S5 S6 S7] [Hc Hle Ho Hh Hs Hn].
   pose proof (cap_of_half_open_max p) as Hcap.
   destruct m as [ms me mi msu mfa md mn]. destruct b as [s g [c su fa] ex nw infl].
   msimp. subst ms me mi msu md mn.
-  destruct e as [|i ok|dt]; unfold mon_step.
-  - (* Start *)
-    unfold mon_start, mon_clock. unf. msimp.
-    destruct s; msimp.
-    + eexists; split; [reflexivity|]. constructor; msimp; auto.
-    + destruct (half_open_max (p_hom p) <=? c) eqn:E; msimp.
-      * rewrite Hcap. destruct (half_open_max (p_hom p) <=? Z.of_nat (length infl)) eqn:E2; [|lia].
-        eexists; split; [reflexivity|]. constructor; msimp; auto.
-      * rewrite Hcap. pose proof (count_gen_le_length g infl).
-        destruct (Z.of_nat (count_gen g infl) + 1 <=? half_open_max (p_hom p)) eqn:E2; [|lia].
-        eexists; split; [reflexivity|]. constructor; msimp; auto.
-    + destruct (ex <? nw) eqn:E; msimp.
-      * destruct (half_open_max (p_hom p) <=? c) eqn:E1; msimp.
-        -- rewrite Hcap. destruct (half_open_max (p_hom p) <=? Z.of_nat (length infl)) eqn:E2; [|lia].
-           eexists; split; [reflexivity|]. constructor; msimp; auto; discriminate.
-        -- rewrite Hcap. pose proof (count_gen_le_length (S g) infl).
-           destruct (Z.of_nat (count_gen (S g) infl) + 1 <=? half_open_max (p_hom p)) eqn:E2; [|lia].
-           eexists; split; [reflexivity|]. constructor; msimp; auto; discriminate.
-      * eexists; split; [reflexivity|]. constructor; msimp; auto.
-  - (* Finish *)
-    unfold mon_finish, mon_clock. unf. msimp.
-    destruct (nth_error infl i) as [g0|] eqn:En; msimp.
-    2:{ eexists; split; [reflexivity|]. constructor; msimp; auto. }
-    pose proof (remove_nth_length infl i g0 En) as Hlen.
-    assert (Hc1 : c - 1 = Z.of_nat (length (remove_nth i infl))) by lia.
-    destruct s; msimp.
-    + (* closed *)
-      destruct (Nat.eqb g0 g) eqn:Eg; msimp.
-      2:{ eexists; split; [reflexivity|]. constructor; msimp; auto. }
-      destruct ok; msimp.
-      * eexists; split; [reflexivity|]. constructor; msimp; auto.
-      * rewrite <- Hc1, (S5 eq_refl).
-        destruct (trip_of p {| cur := c - 1; succ := 0; fail := fa + 1 |}) eqn:Et; msimp.
-        -- rewrite Z.eqb_refl. eexists; split; [reflexivity|]. constructor; msimp; auto; discriminate.
-        -- eexists; split; [reflexivity|]. constructor; msimp; auto.
-    + (* half-open *)
-      destruct (Nat.eqb g0 g) eqn:Eg; msimp.
-      2:{ eexists; split; [reflexivity|]. constructor; msimp; auto; discriminate. }
-      destruct ok; msimp.
-      * rewrite <- Hc1.
-        destruct (reset_of p {| cur := c - 1; succ := su + 1; fail := 0 |}) eqn:Er; msimp.
-        -- eexists; split; [reflexivity|]. constructor; msimp; auto.
-        -- eexists; split; [reflexivity|]. constructor; msimp; auto; discriminate.
-      * rewrite Z.eqb_refl. eexists; split; [reflexivity|]. constructor; msimp; auto; discriminate.
-    + (* open: every call in flight is older than the current generation *)
-      pose proof (nth_error_Forall _ _ _ _ (Ho eq_refl) En) as Hg0. cbn beta in Hg0.
-      destruct (ex <? nw) eqn:E; msimp.
-      * assert (Eg : Nat.eqb g0 (S g) = false) by (apply Nat.eqb_neq; lia).
-        rewrite ?Eg. msimp. rewrite ?Eg. msimp.
-        eexists; split; [reflexivity|]. constructor; msimp; auto; discriminate.
-      * assert (Eg : Nat.eqb g0 g = false) by (apply Nat.eqb_neq; lia).
-        rewrite ?Eg. msimp. rewrite ?Eg. msimp.
-        eexists; split; [reflexivity|]. constructor; msimp; auto.
-  - (* Tick *)
+  unfold mon_start, mon_clock. unf. msimp.
+  destruct s; msimp.
+  + eexists; split; [reflexivity|]. constructor; msimp; auto.
+  + destruct (half_open_max (p_hom p) <=? c) eqn:E; msimp.
+    * rewrite Hcap. destruct (half_open_max (p_hom p) <=? Z.of_nat (length infl)) eqn:E2; [|lia].
+      eexists; split; [reflexivity|]. constructor; msimp; auto.
+    * rewrite Hcap. pose proof (count_gen_le_length g infl).
+      destruct (Z.of_nat (count_gen g infl) + 1 <=? half_open_max (p_hom p)) eqn:E2; [|lia].
+      eexists; split; [reflexivity|]. constructor; msimp; auto.
+  + destruct (ex <? nw) eqn:E; msimp.
+    * destruct (half_open_max (p_hom p) <=? c) eqn:E1; msimp.
+      -- rewrite Hcap. destruct (half_open_max (p_hom p) <=? Z.of_nat (length infl)) eqn:E2; [|lia].
+         eexists; split; [reflexivity|]. constructor; msimp; auto; discriminate.
+      -- rewrite Hcap. pose proof (count_gen_le_length (S g) infl).
+         destruct (Z.of_nat (count_gen (S g) infl) + 1 <=? half_open_max (p_hom p)) eqn:E2; [|lia].
+         eexists; split; [reflexivity|]. constructor; msimp; auto; discriminate.
+    * eexists; split; [reflexivity|]. constructor; msimp; auto.
+Qed.
+
+Lemma mon_step_accepts m b e :
+  Sim m b -> Inv (p_hom p) b ->
+  exists m', mon_step p m e (snd (mstep b e)) = Some m' /\ Sim m' (fst (mstep b e)).
+Proof.
+  intros HS HI. destruct e as [|i ok|dt]; unfold mon_step.
+  - apply mon_start_accepts; assumption.
+  - destruct (nth_error (inflight b) i) as [g0|] eqn:En.
+    + destruct (mon_finish_k_accepts m b i ok g0 [] HS HI En) as [m' [E S']].
+      rewrite app_nil_r in E. exists m'. split; [|exact S'].
+      unfold mon_finish. rewrite (sim_infl _ _ HS), En.
+      assert (Ho : o_adm (snd (mstep b (Finish i ok))) = None /\ o_ran (snd (mstep b (Finish i ok))) = false).
+      { unfold step. rewrite En. destruct (after_request _ _ _ _ _ _); simpl; auto. }
+      destruct Ho as [-> ->]. rewrite E. reflexivity.
+    + exists m. unfold mon_finish, step. rewrite (sim_infl _ _ HS), En. simpl. split; [reflexivity | exact HS].
+  - destruct HS as [S1 S2 S3 S4 S5 S6 S7].
+    destruct m as [ms me mi msu mfa md mn]. destruct b as [s g [c su fa] ex nw infl].
+    msimp. subst ms me mi msu md mn.
     unfold mon_tick. unf. msimp.
     eexists; split; [reflexivity|]. constructor; msimp; auto.
 Qed.
